@@ -49,16 +49,19 @@ impl Kt for enr::k256::ecdsa::SigningKey {
         Self::from_slice(&hex32(spec)?).ok()
     }
 }
+#[cfg(feature = "full")]
 impl Kt for enr::secp256k1::SecretKey {
     fn make(spec: &str) -> Option<Self> {
         Self::from_byte_array(&hex32(spec)?).ok()
     }
 }
+#[cfg(feature = "full")]
 impl Kt for enr::ed25519_dalek::SigningKey {
     fn make(spec: &str) -> Option<Self> {
         Some(Self::from_bytes(&hex32(spec)?))
     }
 }
+#[cfg(feature = "full")]
 impl Kt for enr::CombinedKey {
     fn make(spec: &str) -> Option<Self> {
         let (s, h) = spec.split_once(':')?;
